@@ -6,6 +6,7 @@
 package c10
 
 import (
+	"regexp"
 	"context"
 	"fmt"
 	"runtime"
@@ -42,6 +43,9 @@ var hookZones = []*time.Location{time.UTC, time.FixedZone("+0530", 19800), time.
 // in different zones (a hook that reports the time in the request's zone), so the record must
 // carry this call's wall-clock reading, not that of an earlier call at the same instant.
 func timeFor(k int) time.Time {
+	if k%11 == 5 {
+		return time.Time{} // "no time known for this request": the hook's answer all the same
+	}
 	return baseTime.Add(time.Duration(k/7) * time.Second).In(hookZones[k%len(hookZones)])
 }
 
@@ -421,15 +425,23 @@ func TestC10_Concurrent(t *testing.T) {
 		time.Sleep(5 * time.Microsecond) // widen the window in which another goroutine is also inside record()
 		return fmt.Sprintf("cs%d", ctx.Value(idKey{}).(int))
 	}
+	// even ids: one request-scoped slice shared by all of them (built with append: spare capacity);
+	// odd ids: a slice of their own
+	shared := append(make([]log.Field, 0, 16), log.String("app", "x"))
 	log.FieldsFromContext = func(ctx context.Context) []log.Field {
 		fcalls.Add(1)
-		return []log.Field{log.Int("cid", ctx.Value(idKey{}).(int))}
+		if id := ctx.Value(idKey{}).(int); id%2 == 1 {
+			return []log.Field{log.Int("cid", id)}
+		}
+		return shared
 	}
+	console.Reset()
+	log.Stdout = console
 	defer func() {
 		log.Destroy()
 		log.TimeNow, log.StringFromContext, log.FieldsFromContext = nil, nil, nil
 	}()
-	if err := log.Refresh(map[string]string{"enableCaller": "false", "appender.rec.type": "Rec", "logger.l.type": "Logger", "logger.l.tags": "_c10_t", "logger.l.appenderRef.ref": "rec"}); err != nil {
+	if err := log.Refresh(map[string]string{"enableCaller": "false", "appender.rec.type": "Rec", "appender.con.type": "Console", "appender.con.layout.type": "JSONLayout", "logger.l.type": "Logger", "logger.l.tags": "_c10_t", "logger.l.appenderRef[0].ref": "rec", "logger.l.appenderRef[1].ref": "con"}); err != nil {
 		t.Fatalf("VERIF-INCONCLUSIVE C10: %v", err)
 	}
 	const G, N = 8, 400
@@ -458,8 +470,24 @@ func TestC10_Concurrent(t *testing.T) {
 		t.Fatalf("VERIF-VIOLATION C10: %d events emitted, %d recorded", G*N, len(items))
 	}
 	for _, it := range items {
-		if it.CtxString != fmt.Sprintf("cs%d", it.ID) || it.CtxJSON != fmt.Sprintf(`{"cid":%d}`, it.ID) || !it.Time.Equal(baseTime.Add(time.Duration(it.ID)*time.Millisecond)) {
+		wantCF := fmt.Sprintf(`{"cid":%d}`, it.ID)
+		if it.ID%2 == 0 {
+			wantCF = `{"app":"x"}`
+		}
+		if it.CtxString != fmt.Sprintf("cs%d", it.ID) || it.CtxJSON != wantCF || !it.Time.Equal(baseTime.Add(time.Duration(it.ID)*time.Millisecond)) {
 			t.Fatalf("VERIF-VIOLATION C10: under concurrent emission the record of event id=%d carries context string %q, fields %s, time %v - not what the hooks returned for its own context", it.ID, it.CtxString, it.CtxJSON, it.Time)
+		}
+	}
+	// the formatted lines: context string, context fields and the call's own field belong to one event
+	lineRe := regexp.MustCompile(`"ctxString":"cs(\d+)",(?:"app":"x"|"cid":(\d+)),"id":(\d+)\}$`)
+	lines := strings.Split(strings.TrimSuffix(console.String(), "\n"), "\n")
+	if len(lines) != G*N {
+		t.Fatalf("VERIF-VIOLATION C10: %d events emitted, %d formatted lines", G*N, len(lines))
+	}
+	for _, ln := range lines {
+		m := lineRe.FindStringSubmatch(ln)
+		if m == nil || m[1] != m[3] || (m[2] != "" && m[2] != m[1]) {
+			t.Fatalf("VERIF-VIOLATION C10: under concurrent emission a formatted record mixes the context of one call with the fields of another: %q", ln)
 		}
 	}
 }
